@@ -76,6 +76,8 @@ struct G<'a, 'b> {
     in_sub: Option<usize>,
     fns: Vec<FnInfo>,
     arrays: Vec<(Name, Vec<i16>)>,
+    /// arrays the prologue declared with DIM (the others come into being at their first use)
+    dimmed: Vec<Name>,
     loop_stack: Vec<Name>,
     while_depth: usize,
     budget: isize,
@@ -408,6 +410,26 @@ impl<'a, 'b> G<'a, 'b> {
                 Stmt::Let { lv, e, kw: false }
             }
             2 => self.print_stmt(),
+            3 if self.o.arrays && !self.arrays.is_empty() && self.t.chance(1, 3) => {
+                // array elements take part in SWAP like any other variable of their type
+                let i = self.t.below(self.arrays.len());
+                let (n, dims) = self.arrays[i].clone();
+                let ty = n.ty(&self.deftypes);
+                let s1: Vec<E> = dims.iter().map(|d| self.small_index(*d)).collect();
+                let a = Lval::Elem(n.clone(), s1);
+                let partner: Vec<&str> = ["A", "B", "C", "X", "B%", "A#", "A$", "B$"].iter().copied().filter(|v| Name::new(v).ty(&self.deftypes) == ty).collect();
+                let b = if partner.is_empty() || self.t.chance(1, 2) {
+                    let s2: Vec<E> = dims.iter().map(|d| self.small_index(*d)).collect();
+                    Lval::Elem(n, s2)
+                } else {
+                    Lval::Var(Name::new(partner[self.t.below(partner.len())]))
+                };
+                if self.t.chance(1, 2) {
+                    Stmt::Swap(a, b)
+                } else {
+                    Stmt::Swap(b, a)
+                }
+            }
             3 => {
                 if self.t.chance(1, 2) {
                     let a = Name::new(self.t.pick_str(&["A", "B", "C", "X"]));
@@ -418,7 +440,7 @@ impl<'a, 'b> G<'a, 'b> {
                 }
             }
             4 => {
-                let lv = Lval::Var(self.str_var());
+                let lv = self.lval_str();
                 let pos = lit(self.t.range(1, 4));
                 let len = if self.t.chance(1, 2) { Some(lit(self.t.range(0, 3))) } else { None };
                 let e = self.str(1);
@@ -579,7 +601,7 @@ impl<'a, 'b> G<'a, 'b> {
                 return;
             }
             let deep = depth < 3;
-            let w: [u32; 12] = [
+            let w: [u32; 13] = [
                 14,
                 4,
                 if deep { 4 } else { 0 },
@@ -592,6 +614,7 @@ impl<'a, 'b> G<'a, 'b> {
                 if self.o.stop { 1 } else { 0 },
                 if deep { 1 } else { 0 },
                 if self.o.allow_end || self.in_sub.is_some() { 1 } else { 0 },
+                if self.dimmed.is_empty() { 0 } else { 1 },
             ];
             match self.t.weighted(&w) {
                 0 => {
@@ -641,6 +664,19 @@ impl<'a, 'b> G<'a, 'b> {
                 }
                 9 => self.emit(Stmt::Stop),
                 10 => self.nested_discard(),
+                12 => {
+                    // ERASE and a fresh DIM with the same bounds, kept on one line: the elements
+                    // start over from their defaults
+                    let i = self.t.below(self.dimmed.len());
+                    let name = self.dimmed[i].clone();
+                    let dims = self.arrays.iter().find(|(n, _)| *n == name).map(|(_, d)| d.clone()).unwrap_or_default();
+                    let l = self.label();
+                    self.start_line(l);
+                    self.push_cur(Stmt::Erase(vec![name.clone()]));
+                    self.push_cur(Stmt::Dim(vec![(name, dims.iter().map(|d| lit(*d as i64)).collect())]));
+                    self.flush();
+                    self.budget -= 2;
+                }
                 _ => {
                     let c = self.cond(1);
                     let s = if self.in_sub.is_some() { Stmt::Return } else { Stmt::End };
@@ -726,16 +762,39 @@ impl<'a, 'b> G<'a, 'b> {
         let ha = self.for_header(&a);
         self.emit(ha);
         self.loop_stack.push(a.clone());
+        if self.o.early_exit && self.t.chance(1, 3) {
+            // a loop left by GOTO: its frame stays between the two that the NEXT list names
+            if let Some(k) = self.free_loop_var() {
+                let hk = self.for_header(&k);
+                self.emit(hk);
+                let x = self.label();
+                self.emit(Stmt::Goto(x));
+                self.start_line(x);
+                let s = self.print_stmt();
+                self.push_cur(s);
+            }
+        }
+        let mut inner = None;
         if let Some(b) = self.free_loop_var() {
             let hb = self.for_header(&b);
             self.emit(hb);
-            self.loop_stack.push(b);
+            self.loop_stack.push(b.clone());
             let s = self.print_stmt();
             self.emit(s);
             self.loop_stack.pop();
+            inner = Some(b);
         }
         self.loop_stack.pop();
-        self.emit(Stmt::Next(vec![a]));
+        match (inner, self.t.below(3)) {
+            // NEXT J,I closes both loops in one statement
+            (Some(b), 1) => self.emit(Stmt::Next(vec![b, a])),
+            (Some(b), 2) => {
+                let bare = self.t.chance(1, 2);
+                self.emit(Stmt::Next(if bare { vec![] } else { vec![b] }));
+                self.emit(Stmt::Next(vec![a]));
+            }
+            _ => self.emit(Stmt::Next(vec![a])),
+        }
     }
 
     fn while_loop(&mut self, depth: usize) {
@@ -755,7 +814,7 @@ impl<'a, 'b> G<'a, 'b> {
     }
 
     fn on_stmt(&mut self, depth: usize) {
-        let sel = if self.t.chance(1, 2) { lit(self.t.range(0, 3)) } else { bin(Bin::Mod, E::Call("ABS", vec![E::Call("CINT", vec![self.num(1)])]), lit(4)) };
+        let sel = if self.t.chance(1, 6) { E::Lit(self.t.pick(&["1.5", "2.5", ".4", "2.6", "1.49", "3.5#", "&H2"]).to_string()) } else if self.t.chance(1, 2) { lit(self.t.range(0, 3)) } else { bin(Bin::Mod, E::Call("ABS", vec![E::Call("CINT", vec![self.num(1)])]), lit(4)) };
         if self.t.chance(1, 2) && !self.subs.is_empty() {
             let n = 1 + self.t.below(3);
             let mut targets = vec![];
@@ -806,6 +865,7 @@ impl<'a, 'b> G<'a, 'b> {
                 let dims: Vec<i16> = (0..nd).map(|_| *self.t.pick(&[1i16, 3, 6, 10, 7])).collect();
                 if self.t.chance(2, 3) {
                     self.emit(Stmt::Dim(vec![(name.clone(), dims.iter().map(|d| lit(*d as i64)).collect())]));
+                    self.dimmed.push(name.clone());
                     self.arrays.push((name, dims));
                 } else {
                     // used undeclared: bound 10 in every dimension
@@ -940,6 +1000,7 @@ pub fn program(t: &mut Tape, o: &GenOpts) -> Generated {
         in_sub: None,
         fns: vec![],
         arrays: vec![],
+        dimmed: vec![],
         loop_stack: vec![],
         while_depth: 0,
         budget: size as isize,
@@ -1085,6 +1146,7 @@ pub fn direct_list(t: &mut Tape, o: &GenOpts) -> Vec<Stmt> {
         in_sub: None,
         fns: vec![],
         arrays: vec![],
+        dimmed: vec![],
         loop_stack: vec![],
         while_depth: 0,
         budget: 8,
